@@ -17,6 +17,7 @@ import PgProofs.GenoViews
 import PgProofs.GenoNumbers
 import PgProofs.GenoAlign
 import PgProofs.GenoDict
+import PgProofs.GenoDict2
 import PgModel.Geno.Valid
 namespace Pg.Geno
 
@@ -74,17 +75,40 @@ theorem C12_views_of_rebuilt (g : Spec) (hc : g.noCustom = true) (b : BDNA)
 /-! ### from_dict -/
 
 /-- `DNA.from_dict(D, spec, use_ints_as_literals)` rebuilds a valid DNA `d` from ANY dictionary `D`
-that holds the decisions of `d` (`Good D o useInts b`, `b` = the bound `d`): under the id of every
-decision point `d` passes through — or, with `multi_choice_key='parent'`, as the list under the
-id of the multi-choice — the decision in the value style of `o`, readable by `candidate_index`.
-Covers the 15 option combinations with id keys (5 value styles × 3 multi-choice modes), every
-spec without custom points. That `to_dict` produces such a dictionary (no two decision points
-render to the same key) is compared on every run (`from_dict(to_dict(…))`, model and code, all
-30 option triples) rather than proved. -/
+that holds the decisions of `d` (`Good D o useInts b`, `b` = the bound `d`): for every decision
+point `d` passes through, the decision in the value style of `o`, readable by `candidate_index`,
+sits under the point's id, or — when the id is no key of `D` — under its name (`key_type='id'` and
+`key_type='name_or_id'`), or, with `multi_choice_key='parent'`, in the list under the id of the
+multi-choice. Every spec without custom points, 5 value styles × 3 multi-choice modes × both key
+types, as long as a name holds ONE decision; a name shared by several active decisions (a named
+point inside the candidates of a multi-choice: the values accumulate in a list that `from_dict`
+pops) is modelled (`getDecision`) and compared on every run, not covered by this theorem. That
+`to_dict` produces such a dictionary (no two decision points render to the same key) is likewise
+compared on every run (`from_dict(to_dict(…))`, model and code, all 30 option triples). -/
 theorem C12_from_dict (g : Spec) (hc : g.noCustom = true) (d : DNA) (b : BDNA) (o : Opts) (useInts : Bool)
     (D : List (String × DE)) (hv : Valid g d) (hb : g.annot d = some b) (hD : Good D o useInts b) :
     g.fromDict useInts D = some d :=
   fromDict_of_good D o useInts g hc d b hv hb hD
+
+/-- END TO END for the default options: `DNA.from_dict(d.to_dict(), spec) == d` for every valid `d` of
+every spec without custom points, under the explicit decidable condition that the decisions of
+`d` are stored under pairwise different keys (`puts0 b`: the `_put` calls of `to_dict()`; their
+keys are the rendered ids of the decision points `d` passes through). -/
+theorem C12_dict_default_roundtrip (g : Spec) (hc : g.noCustom = true) (d : DNA) (b : BDNA)
+    (hv : Valid g d) (hb : g.annot d = some b) (hkeys : ((puts0 b).map (·.1)).Nodup) :
+    g.fromDict false (toDict {} b) = some d :=
+  fromDict_toDict_default g hc d b hv hb hkeys
+
+/-- Dropping the condition: two decision points at the same location share one key, `to_dict()`
+turns their decisions into a list, and `from_dict` cannot read it back (replayed on the code:
+`space([oneof(.., location='a'), oneof(.., location='a')])`, `DNA([0, 1]).to_dict() == {'a': [0, 1]}`). -/
+theorem C12_dict_same_key_counterexample :
+    let g := Spec.space [.choices 1 [[], []] true false { loc := [.s "a"] },
+                         .choices 1 [[], []] true false { loc := [.s "a"] }]
+    let d := DNA.mk .none [.mk (.int 0) [], .mk (.int 1) []]
+    Valid g d ∧ (match g.annot d with
+      | some b => decide (g.fromDict false (toDict {} b) = none)
+      | none => false) = true := by decide
 
 /-- The readability half of `Good` follows from the explicit conditions `styleOk` on the literal
 values: plain values need `use_ints_as_literals=False`; the literal style needs pairwise different
@@ -126,6 +150,16 @@ def exampleDna12 : DNA :=
 example : Valid exampleSpec12 exampleDna12 ∧ viewNorm exampleDna12 = true := by decide
 example : exampleSpec12.fromNumbers (flat exampleDna12) = some exampleDna12 := by decide
 example : exampleSpec12.noCustom = true := by decide
+/-- A named choice under `key_type='name_or_id'` is read back through its name. -/
+example : (match (Spec.point (.choices 1 [[], [.choices 1 [[], []] true false { name := some "inner", loc := [.s "b"] }]]
+      true false { name := some "outer", loc := [.s "a"] })).annot (.mk (.int 1) [.mk (.int 0) []]) with
+    | some b => decide ((Spec.point (.choices 1 [[], [.choices 1 [[], []] true false { name := some "inner", loc := [.s "b"] }]]
+        true false { name := some "outer", loc := [.s "a"] })).fromDict false
+        (toDict { keyType := 1 } b) = some (.mk (.int 1) [.mk (.int 0) []]))
+    | none => false) = true := by decide
+example : (match exampleSpec12.annot exampleDna12 with
+    | some b => decide (((puts0 b).map (·.1)).Nodup)
+    | none => false) = true := by decide
 /-- `Good` is satisfiable: the default dictionary view of the example DNA holds its decisions. -/
 example : (match exampleSpec12.annot exampleDna12 with
     | some b => decide (exampleSpec12.fromDict false (toDict {} b) = some exampleDna12)
